@@ -16,7 +16,7 @@ echo "$B: $(cat $B) ($(stat -c %s $B) B by stat, $(cat $B | wc -c) B readable)"
 echo "--- (a) different content in one group: fclones group --min 0 --max-prefix-size 4 $A $B"
 "$F" group --min 0 --max-prefix-size 4 $A $B > out_a.txt 2> err_a.txt
 grep -v '^#' out_a.txt
-if grep -q "ngroups_max" out_a.txt && grep -q "overflowuid" out_a.txt && ! cmp -s $A $B; then
+if grep -v "^#" out_a.txt | grep -q "ngroups_max" && grep -v "^#" out_a.txt | grep -q "overflowuid" && ! cmp -s $A $B; then
   echo "DEFECT: both files are reported as identical 0 B files, cmp says they differ"
   defect=1
 fi
@@ -44,7 +44,7 @@ if [ -r /proc/$P1/pagemap ] && [ -r /proc/$P2/pagemap ]; then
   e1=$(dd if=/proc/$P1/pagemap bs=8 skip=$off count=1 2>/dev/null | od -An -tx1 | tr -d ' \n')
   e2=$(dd if=/proc/$P2/pagemap bs=8 skip=$off count=1 2>/dev/null | od -An -tx1 | tr -d ' \n')
   echo "8 bytes at offset $off*8: $e1 (pid $P1) vs $e2 (pid $P2)"
-  if grep -q "/proc/$P1/pagemap" out_c.txt && grep -q "/proc/$P2/pagemap" out_c.txt && [ "$e1" != "$e2" ]; then
+  if grep -v "^#" out_c.txt | grep -q "/proc/$P1/pagemap" && grep -v "^#" out_c.txt | grep -q "/proc/$P2/pagemap" && [ "$e1" != "$e2" ]; then
     echo "DEFECT: the two pagemap files are reported as identical, but they differ at byte offset $((off*8)) (only the first 16 KiB were hashed)"
     defect=1
   fi
